@@ -24,20 +24,22 @@ Definition get_doy (y m d : fval) : fval := Epoch_get_doy B0 y m d.
 Definition doy2date (y k : fval) : fval := Epoch_doy2date B0 y k.
 Definition is_leap (y : fval) : fval := Epoch_is_leap B0 y.
 
-(* ---- one civil date ---- *)
+(* ---- one civil date (the Epoch object is taken at 0h of the day: JDE = jdn - 0.5) ---- *)
 Definition chk_date (y m d : Z) : bool :=
   let n := jdn y m d in
   let k := n - jdn y 1 1 + 1 in
-  val_eqb (mkEpoch [VInt y; VInt m; VInt d]) (epoch_at n) &&
-  val_eqb (Epoch_get_date B0 (epoch_at n) (VDict [])) (date_tuple y m d) &&
   val_eqb (dow (epoch_at n)) (VInt ((n + 1) mod 7)) &&
   val_eqb (get_doy (VInt y) (VInt m) (fl d)) (fl k) &&
   val_eqb (doy2date (VInt y) (fl k)) (date_tuple y m d) &&
   val_eqb (Epoch_mjd B0 (epoch_at n)) (fl (n - 2400001)).
 
-(* integer arguments (as a caller would write them) *)
-Definition chk_int (y m d : Z) : bool :=
-  let k := jdn y m d - jdn y 1 1 + 1 in
+(* first and last day of a month: Epoch(y, m, d) is that object and get_date reads the date back
+   (on every date: C01_construct / C01_roundtrip); integer arguments as a caller would write them *)
+Definition chk_ends (y m d : Z) : bool :=
+  let n := jdn y m d in
+  let k := n - jdn y 1 1 + 1 in
+  val_eqb (mkEpoch [VInt y; VInt m; VInt d]) (epoch_at n) &&
+  val_eqb (Epoch_get_date B0 (epoch_at n) (VDict [])) (date_tuple y m d) &&
   val_eqb (get_doy (VInt y) (VInt m) (VInt d)) (fl k) &&
   val_eqb (doy2date (VInt y) (VInt k)) (date_tuple y m d).
 
@@ -57,7 +59,7 @@ Definition chk_month (y m : Z) : bool :=
   chk_refused y m (-1) && chk_refused y m 0 &&
   forallb (chk_refused y m) (zrange (n + 1) (Z.to_nat (33 - n))) &&
   (if (y =? 1582) && (m =? 10) then forallb (chk_refused y m) (zrange 5 10) else true) &&
-  chk_int y m 1 && chk_int y m n &&
+  chk_ends y m 1 && chk_ends y m n &&
   forallb (fun d => if valid y m d then chk_date y m d && (if sampled_year y then chk_within y m d else true)
                     else true) (zrange 1 (Z.to_nat n)).
 
@@ -94,6 +96,20 @@ Definition iau82 (n : Z) (f : Q) : Q :=
     - Qmake 62 10000000 * T * T * T) / inject_Z 86400
    + Qmake 100273790935 100000000000 * f)%Q.
 
+(* the same number over one fixed denominator (small terms for the kernel; shown equal to
+   iau82 n (i/1024) in C16_main.iau82_fast_ok) *)
+Definition D1 : Z := 73050.
+Definition c0 : Z := Eval vm_compute in 241105484100 * D1 ^ 3.
+Definition c1 : Z := Eval vm_compute in 86401848128660 * D1 ^ 2.
+Definition c2 : Z := Eval vm_compute in 931040 * D1.
+Definition Dn : Z := Eval vm_compute in 86400 * 10 ^ 7 * D1 ^ 3.
+Definition E16 : positive := Eval vm_compute in Z.to_pos (16 * Dn).
+Definition K16 : Z := Eval vm_compute in (16 * Dn) / (10 ^ 11 * 1024).
+Definition iau82_num (n i : Z) : Z :=
+  let u := 2 * n - 4903091 in
+  16 * (c0 + u * (c1 + u * (c2 - 62 * u))) + 100273790935 * i * K16.
+Definition iau82_fast (n i : Z) : Q := Qmake (iau82_num n i) E16.
+
 (* distance on the circle of turns *)
 Definition circ_err (a b : Q) : Q :=
   let d := (a - b)%Q in Qabs (d - inject_Z (Qfloor (d + Qmake 1 2)))%Q.
@@ -110,12 +126,9 @@ Definition chk_sid_at (n i : Z) : bool :=
   | VFloat x =>
       Qeq_bool (Q_of_float j) (inject_Z n - Qmake 1 2 + Qmake i 1024)%Q &&
       (0 <=? x)%float && (x <? 1)%float &&
-      Qle_bool (circ_err (Q_of_float x) (iau82 n (Qmake i 1024))) sid_tol
+      Qle_bool (circ_err (Q_of_float x) (iau82_fast n i)) sid_tol
   | _ => false
   end.
-(* every 20th day 0h, 12h and at a fraction that runs through all multiples of 1/1024 *)
+(* every 100th day 0h, 12h and at a fraction that runs through all multiples of 1/1024 *)
 Definition chk_sid (k : Z) : bool :=
-  chk_sid_at (20 * k) 0 && chk_sid_at (20 * k) 512 && chk_sid_at (20 * k) (k mod 1024).
-
-(* the last instant before midnight exists as a binary64 number below the next 0h *)
-Definition chk_step (n : Z) : bool := (next_down (jde_of (n + 1)) <? jde_of (n + 1))%float.
+  chk_sid_at (100 * k) 0 && chk_sid_at (100 * k) 512 && chk_sid_at (100 * k) (k mod 1024).
